@@ -35,11 +35,12 @@ pub fn plan_for(prop: &str, tier: Tier) -> Option<PropPlan> {
     match prop {
         "C01" => Some(PropPlan {
             rule: "case = (backend flavour, len, spare capacity class, one push/insert/pop/remove/swap_remove/clear/get/iter instance with index 0..=len+1, value source, sink, erased/typed path) enumerated exhaustively, plus proptest histories over three vectors; non-trivial = the operation changes the sequence, uses a boundary or out-of-range index, or moves a value between vectors; distinct = distinct (configuration, pick sequence)",
-            bound: format!("exhaustive one-step for len<={} on all layout/backend/constraint configurations{}; proptest {} histories x <= {} ops per configuration", l, if q { "" } else { ", exhaustive two-step for len<=3 on the core configurations" }, hc, ho),
+            bound: format!("exhaustive one-step for len<={} on all layout/backend/constraint configurations{}; threshold sweep (shifted byte counts 120..136 around the 128-byte copy switch, lengths around 16/32); proptest {} histories x <= {} ops per configuration", l, if q { "" } else { ", exhaustive two-step for len<=3 on the core configurations" }, hc, ho),
             plans: {
                 let mut v = vec![
                     Plan { shape: Shape::Step, groups: G_LAYOUT | G_BACKEND | G_CONSTRAINT, random: None, spec: spec("C01", OPS_C01, MON_MODEL, l) },
                     Plan { shape: Shape::History, groups: G_LAYOUT | G_BACKEND | G_CONSTRAINT, random: Some((hc, ho)), spec: spec("C01", OPS_C01 | ops(&[OP_DRAIN]), MON_MODEL, l) },
+                    Plan { shape: Shape::Threshold, groups: G_LAYOUT | G_BACKEND, random: None, spec: spec("C01", OPS_C01, MON_MODEL, l) },
                 ];
                 if !q {
                     v.push(Plan { shape: Shape::Step2, groups: G_CORE, random: None, spec: spec("C01", OPS_C01, MON_MODEL, 3) });
@@ -61,6 +62,7 @@ pub fn plan_for(prop: &str, tier: Tier) -> Option<PropPlan> {
             plans: vec![
                 Plan { shape: Shape::Step, groups: G_LAYOUT | G_BACKEND, random: None, spec: spec("C03", OPS_C01 | OPS_C02 | ops(&[OP_CLEAR]), MON_OWN, l.min(4)) },
                 Plan { shape: Shape::History, groups: G_LAYOUT | G_BACKEND | G_CONSTRAINT, random: Some((hc, ho)), spec: spec("C03", OPS_C01 | OPS_C02, MON_OWN, l) },
+                Plan { shape: Shape::Threshold, groups: G_LAYOUT | G_BACKEND, random: None, spec: spec("C03", OPS_C01, MON_OWN, l) },
             ],
         }),
         "C04" => Some(PropPlan {
@@ -74,6 +76,7 @@ pub fn plan_for(prop: &str, tier: Tier) -> Option<PropPlan> {
             plans: vec![
                 Plan { shape: Shape::Step, groups: G_LAYOUT | G_BACKEND, random: None, spec: spec("C05", OPS_C01 | OPS_C02 | OPS_CAP | ops(&[OP_CLONE, OP_CLONE_EMPTY]), MON_MEM, l.min(4)) },
                 Plan { shape: Shape::History, groups: G_LAYOUT | G_BACKEND, random: Some((hc, ho)), spec: spec("C05", OPS_C01 | OPS_C02 | OPS_CAP | ops(&[OP_CLONE, OP_CLONE_EMPTY, OP_BULK_PUSH, OP_DROP_NEW]), MON_MEM, l) },
+                Plan { shape: Shape::Threshold, groups: G_LAYOUT | G_BACKEND, random: None, spec: spec("C05", OPS_C01, MON_MEM, l) },
             ],
         }),
         "C06" => {
@@ -174,9 +177,9 @@ pub fn plan_for(prop: &str, tier: Tier) -> Option<PropPlan> {
             rule: "case = ((len, capacity) state, every view: as_bytes/as_bytes_mut/spare_bytes_mut/typed as_ptr/as_slice/as_mut_slice/spare_capacity_mut compared by address arithmetic with base + len x size; k values written into spare capacity (typed or byte view) + set_len) | (vector value moved to every admissible offset of a 64-byte aligned arena, storage pointer alignment checked by integer arithmetic when empty and after each push); non-trivial = alignment>8, or size not in {0,8}, or 0<len<cap, or non-zero placement offset; distinct = distinct (configuration, pick sequence)",
             bound: format!("exhaustive for len<={} x capacity classes on all layouts and backends incl. over-aligned elements on inline backends; every offset in one 64-byte period", l),
             plans: vec![
-                Plan { shape: Shape::Step, groups: G_LAYOUT | G_BACKEND | G_RAW, random: None, spec: spec("C12", ops(&[OP_VIEWS, OP_WRITE_SPARE]), MON_VIEW, l) },
+                Plan { shape: Shape::Step, groups: G_LAYOUT | G_BACKEND | G_RAW, random: None, spec: spec("C12", ops(&[OP_VIEWS, OP_WRITE_SPARE, OP_PUSH, OP_INSERT, OP_REMOVE, OP_POP, OP_CLEAR, OP_RESERVE, OP_SHRINK_FIT, OP_SHRINK_TO, OP_CLONE, OP_CLONE_EMPTY, OP_DRAIN]), MON_VIEW, l.min(4)) },
                 Plan { shape: Shape::Placement, groups: G_LAYOUT | G_BACKEND | G_RAW | G_ALIGN, random: None, spec: spec("C12", ops(&[OP_VIEWS]), MON_VIEW, l) },
-                Plan { shape: Shape::History, groups: G_LAYOUT | G_BACKEND, random: Some((hc, ho)), spec: spec("C12", ops(&[OP_VIEWS, OP_WRITE_SPARE, OP_PUSH, OP_REMOVE, OP_RESERVE, OP_SHRINK_FIT]), MON_VIEW, l) },
+                Plan { shape: Shape::History, groups: G_LAYOUT | G_BACKEND, random: Some((hc, ho)), spec: spec("C12", ops(&[OP_VIEWS, OP_WRITE_SPARE, OP_PUSH, OP_INSERT, OP_REMOVE, OP_POP, OP_CLEAR, OP_RESERVE, OP_RESERVE_EXACT, OP_SHRINK_FIT, OP_SHRINK_TO, OP_CLONE, OP_CLONE_EMPTY, OP_DRAIN, OP_SPLICE, OP_BULK_PUSH, OP_DROP_NEW]), MON_VIEW, l) },
             ],
         }),
         "C13" => Some(PropPlan {
